@@ -895,6 +895,10 @@ struct EvictCase {
     /// per session of the full table: (kind 1 = PASE / 2 = CASE, holds a live exchange, expired)
     table: Vec<(u8, bool, bool)>,
     sched: Option<u64>,
+    /// the request arrives while the transmit buffer is busy with a slow send; meanwhile
+    /// exchanges open on every idle session except one (selector)
+    #[serde(default)]
+    race_spare: Option<u16>,
 }
 
 fn evict_strategy() -> impl Strategy<Value = EvictCase> {
@@ -904,8 +908,9 @@ fn evict_strategy() -> impl Strategy<Value = EvictCase> {
             16,
         ),
         prop_oneof![1 => Just(None), 2 => any::<u64>().prop_map(Some)],
+        prop_oneof![1 => Just(None), 1 => any::<u16>().prop_map(Some)],
     )
-        .prop_map(|(table, sched)| EvictCase { table, sched })
+        .prop_map(|(table, sched, race_spare)| EvictCase { table, sched, race_spare })
 }
 
 fn check_evict(case: &EvictCase) -> Case {
@@ -973,6 +978,9 @@ fn check_evict(case: &EvictCase) -> Case {
     let before = sessions(&m);
     let idle_exists = before.iter().any(|s| !s.reserved && s.exchanges.iter().flatten().count() == 0);
     let outcome: RefCell<Option<Result<(), String>>> = RefCell::new(None);
+    let late_held: RefCell<Vec<Exchange<'_>>> = RefCell::new(Vec::new());
+    let late_busy: RefCell<Vec<u32>> = RefCell::new(Vec::new());
+    let mut raced = false;
     {
         let mut ex = Exec::new(match case.sched {
             None => Sched::Fifo,
@@ -982,9 +990,45 @@ fn check_evict(case: &EvictCase) -> Case {
         ex.spawn("dev.run", async {
             let _ = m.run(&c, net.end(0), net.end(0), NoNetwork).await;
         });
+        if let Some(sel) = case.race_spare {
+            // the idle sessions (not expired: an expired session takes no new exchange)
+            let idle: Vec<u32> = before
+                .iter()
+                .filter(|s| !s.reserved && !s.expired && s.exchanges.iter().flatten().count() == 0)
+                .map(|s| s.id)
+                .collect();
+            if idle.len() >= 2 {
+                raced = true;
+                let spare = idle[vh::util::pick(sel, idle.len())];
+                net.set_slow_send(0, 2 * SEC);
+                let (m, c, late_held, late_busy) = (&m, &c, &late_held, &late_busy);
+                // something to send: an unreliable message on a session that stays busy anyway
+                let carrier = busy.first().copied().unwrap_or(spare);
+                ex.spawn("slow.tx", async move {
+                    if let Ok(mut e) = Exchange::initiate_for_session(m, c, carrier) {
+                        let _ = e.send(rs_matter::transport::exchange::MessageMeta::new(0x00F7, 1, false), &[7]).await;
+                    }
+                });
+                ex.spawn("late.exchanges", async move {
+                    embassy_time::Timer::after(embassy_time::Duration::from_millis(200)).await;
+                    for id in idle {
+                        if id != spare {
+                            if let Ok(e) = Exchange::initiate_for_session(m, c, id) {
+                                late_held.borrow_mut().push(e);
+                                late_busy.borrow_mut().push(id);
+                            }
+                        }
+                    }
+                });
+            }
+        }
         {
             let (m, c, out) = (&m, &c, &outcome);
+            let delay = if raced { 100 } else { 0 };
             ex.spawn("reserve", async move {
+                if delay > 0 {
+                    embassy_time::Timer::after(embassy_time::Duration::from_millis(delay)).await;
+                }
                 let r = ReservedSession::reserve(m, c).await;
                 *out.borrow_mut() = Some(match r {
                     Ok(s) => {
@@ -1000,7 +1044,16 @@ fn check_evict(case: &EvictCase) -> Case {
         }
     }
     let after = sessions(&m);
-    // E1: no session with a live exchange was evicted
+    // E1: no session with a live exchange was evicted - including those whose exchange opened
+    // while the request was waiting for the transmit buffer
+    for id in late_busy.borrow().iter() {
+        if !after.iter().any(|s| s.id == *id) {
+            return Case::fail(
+                "evicted:session-whose-exchange-opened-while-the-eviction-waited",
+                format!("session {id} got a live exchange while the request for a new session was waiting for the transmit buffer, and was evicted all the same although another session was idle; table before: {:?}", before.iter().map(|s| (s.id, s.expired, s.exchanges.iter().flatten().count())).collect::<Vec<_>>()),
+            );
+        }
+    }
     for id in &busy {
         if !after.iter().any(|s| s.id == *id) {
             let was_expired = expired.contains(id);
@@ -1019,9 +1072,13 @@ fn check_evict(case: &EvictCase) -> Case {
         );
     }
     drop(held);
+    drop(late_held);
     let mut labels = vec![if idle_exists { "idle-session-exists" } else { "all-busy" }.to_string()];
     if busy.iter().any(|b| expired.contains(b)) {
         labels.push("expired-and-busy".into());
+    }
+    if raced {
+        labels.push("request-raced-with-new-exchanges".into());
     }
     Case::pass(full && !busy.is_empty()).labels(labels)
 }
